@@ -48,6 +48,31 @@ func (a *An) growthSites() []growthSite {
 						continue
 					}
 					out = append(out, growthSite{f, x, abs})
+				case *ssa.Store:
+					// a slice field of the conversation state that receives the result of an append whose base is
+					// something else (prepending to the old contents, concatenating a collected list with it)
+					call, ok := x.Val.(*ssa.Call)
+					if !ok {
+						continue
+					}
+					bi, isB := call.Call.Value.(*ssa.Builtin)
+					if !isB || bi.Name() != "append" {
+						continue
+					}
+					p := a.C.pathOf(x.Addr)
+					rel := a.C.rel(p)
+					if !strings.HasPrefix(rel, "$") || p.Suffix == "" {
+						continue
+					}
+					abs := a.C.abs(f, rel)
+					if !stateTypes[strings.SplitN(abs, ".", 2)[0]] {
+						continue
+					}
+					bp := a.C.pathOf(call.Call.Args[0])
+					if brel := a.C.rel(bp); strings.HasPrefix(brel, "$") && bp.Suffix != "" && stateTypes[strings.SplitN(a.C.abs(f, brel), ".", 2)[0]] {
+						continue // base is conversation state: counted at the append itself
+					}
+					out = append(out, growthSite{f, call, abs + "<-append"})
 				case *ssa.MapUpdate:
 					p := a.C.pathOf(x.Map)
 					rel := a.C.rel(p)
